@@ -51,6 +51,16 @@ Proof.
     destruct ph; fin_inv.
   - (* drain *)
     destruct ph; fin_inv.
+  - (* a temporary accept error *)
+    exact I.
+Qed.
+
+(* temporary accept errors change nothing: a run with them is the run without them, so whatever holds of the service
+   (a connection under the limit is served, Stop returns, ...) holds with any number of them in between *)
+Definition not_temp (o : lop) : bool := match o with LAcceptTemp => false | _ => true end.
+Lemma temp_errors_invisible fixed l : forall s, fold_left (lstep fixed) l s = fold_left (lstep fixed) (filter not_temp l) s.
+Proof.
+  induction l as [|o t IH]; intros s; [reflexivity|]. destruct o; cbn [filter not_temp fold_left]; apply IH.
 Qed.
 
 Theorem lrun_inv l : LI (lrun true l).
